@@ -82,6 +82,18 @@ def enc_members(ss):
     return ",".join(core.enc(str(m)) + ";" + ob(m._prereleases) for m in ms)
 
 
+def member_roundtrips(m):
+    """the member's own string is one clean clause that parses back to the same (operator, version)"""
+    Specifier, _, InvalidSpecifier, *_ = P()
+    t = str(m)
+    if "," in t or t.strip() != t:
+        return False
+    try:
+        return Specifier(t)._spec == m._spec
+    except InvalidSpecifier:
+        return False
+
+
 def apply_hist(obj, hist, rng_calls=True):
     """assignments to .prereleases interleaved with reading calls ('c'), whose results are discarded"""
     if hist == "-":
@@ -138,7 +150,7 @@ def real(op, args, kinds=None):
     try:
         if op == "set.parse":
             ss = build(args[0], args[1])
-            return f"ok {len(ss)} {enc_members(ss)}"
+            return f"ok {len(ss)} {enc_members(ss)} rt={core.encb(all(member_roundtrips(m) for m in ss._specs))}"
         if op == "set.str":
             ss = build(args[0], args[1])
             if not check_order(ss, args[2]):
